@@ -48,6 +48,10 @@ type Case struct {
 	// DepthAfter (non-zero): ggql.MaxResolveDepth is set to this once the root exists (an application
 	// that sets up a second root with another limit, say); far above what any generated request needs
 	DepthAfter int `json:"depth_after,omitempty"`
+	// TightDepth (>0): ggql.MaxResolveDepth is set (once the root exists) to the number of object and
+	// list levels the deepest leaf of this request needs plus TightDepth-1: the request fits, with
+	// nothing to spare
+	TightDepth int `json:"tight_depth,omitempty"`
 	// ViaAPI: the schema is given to the root through the Go API (hx.BuildAPI, interfaces without
 	// their Root member) instead of as SDL text
 	ViaAPI bool `json:"via_api,omitempty"`
